@@ -41,10 +41,16 @@ C11_SIG = {
     "R_n_own_env": "cache:dynamic-var-key-ignores-env",
     "R_n_dirlate": "task-dir:templated-before-global-vars",
     "R_n_own_dirlate": "task-dir:templated-before-global-vars",
+    "R_n_defer": "defer:rendered-entry-written-into-shared-definition",
     "R_n_matrix": "matrix-ref:resolved-list-written-into-shared-row",
-    "R_n_defs": "matrix-ref:resolved-list-written-into-shared-row",
     "matrix-crosstalk": "matrix-ref:resolved-list-written-into-shared-row",
 }
+
+
+def _changed_defs(inp):
+    before = {r.get("key"): r.get("items") for r in inp.get("defs_before") or []}
+    after = {r.get("key"): r.get("items") for r in inp.get("defs_after") or []}
+    return sorted(k for k in set(before) | set(after) if before.get(k) != after.get(k))
 
 
 def sig_c11(f):
@@ -52,6 +58,14 @@ def sig_c11(f):
     inp = f.get("input") or {}
     if k in C11_SIG:
         return C11_SIG[k]
+    if k == "R_n_defs":
+        # which part of the shared task definitions changed while tasks ran
+        ch = _changed_defs(inp)
+        if ch and all(c.endswith("/defer") for c in ch):
+            return "defer:rendered-entry-written-into-shared-definition"
+        if ch and not any(c.endswith("/defer") for c in ch):
+            return "matrix-ref:resolved-list-written-into-shared-row"
+        return "defs:shared-definition-changed:" + ",".join(c.split("/")[-1] for c in ch[:4])
     if k == "R_n_other":
         return "ni:unexplained:parallel=%s:tasks=%s" % (inp.get("parallel"), len(inp.get("tasks") or []))
     if k == "R_n_agree":
@@ -90,12 +104,13 @@ PROPS = {
         src="Properties/C11.v", target="Properties/C11.vo",
         support=["Vars/Model.vo", "Vars/Proofs.vo", "Vars/ProofsCache.vo"], run_targets=["Run/VarsCases.vo"],
         drivers=[dict(name="vars", extra="prop=C11", n_quick=150, n_thorough=3000, shard=150,
-                      results={"R_n_agree": "agree", "R_n_dir": "mon", "R_n_env": "mon", "R_n_matrix": "mon", "R_n_other": "mon",
+                      results={"R_n_agree": "agree", "R_n_dir": "mon", "R_n_env": "mon", "R_n_matrix": "mon", "R_n_defer": "mon", "R_n_other": "mon",
                                "R_n_own_dir": "mon", "R_n_own_env": "mon", "R_n_own_dirlate": "mon", "R_n_dirlate": "mon", "R_n_defs": "mon"})],
         signature=sig_c11,
-        rule="cases: a generated root Taskfile with 2-4 tasks (dir: one of three, sh: variables / env entries with equal text 'pwd', 'echo x$VR', 'echo s$TASK', 'echo y$VQ', callers of a for: matrix: ref task with different lists); "
-             "the target task is run alone in a fresh Executor and after (or, Parallel, together with) a random prefix of the other tasks in ONE Executor; probe lines compared (mon_same), "
-             "matrix rows of the shared task definitions dumped before and after (mon_defs), alone values compared with the shell's value in the task's own dir/env (own). "
+        rule="cases: a generated root Taskfile with 2-4 tasks (dir: one of three, sh: variables / env entries with equal text 'pwd', 'echo x$VR', 'echo s$TASK', 'echo y$VQ', callers of a for: matrix: ref task with different lists, callers of a task with two templated defer: entries (a command and a task call) with different vars, "
+             "Taskfile-level vars / env that refer to the per-task special variables TASK / ALIAS as template and as sh:); "
+             "the target task is run alone in a fresh Executor and after (or, Parallel, together with) a random prefix of the other tasks in ONE Executor - by one Run call, or through a combining task with cmds:, a for: loop or (concurrently) deps: -; probe lines incl. the output of deferred commands compared (mon_same), "
+             "matrix rows and every field of the defer: entries of the shared task definitions dumped before and after (mon_defs), alone values compared with the shell's value in the task's own dir/env (own). "
              "agree: model E's compile_seq with the extracted cache key and matrix-write fact reproduces both runs (parallel: every printed value is that of some order). "
              "Plus one stress run per check: 8 goroutines x N CompiledTask calls of the matrix task with different lists, counting compilations that got another call's items. "
              "non-trivial = the target prints at least one probe; distinct = distinct (Taskfile, order, outputs)",
